@@ -64,7 +64,9 @@ def parse_sgrid(ds):
 
     sgrid_ax_names = sgrid.get_all_axes(ds)
     parsed_coords = {}
-    for ax_name in sgrid_ax_names:
+    # SGRID axes are called X, Y, Z: take them in that order (the set has none, and the order of
+    # the axes of the Grid must not depend on the hash seed)
+    for ax_name in [ax for ax in ("X", "Y", "Z") if ax in sgrid_ax_names]:
         parsed_coords[ax_name] = sgrid.get_axis_positions_and_coords(ds, ax_name)
 
     sgrid_grid_kwargs = {"coords": parsed_coords}
